@@ -326,6 +326,31 @@ def inplace_edits(model):
             feat.feature_cardinality = Cardinality(0, 3)
         em = (sh._replace_feature(root, list(path), lambda g: (g[0], g[1], g[2], 'Integer', (0, 3), g[5])), model[1])
         out.append(('retype %s' % f[0], retype, em))
+    # move a leaf under another feature (detach, then attach with add_relation)
+    pm = sh.parent_map(model)
+    for path, f in sh._paths(root):
+        if path and not f[1]:
+            base = sh._replace_feature(root, list(path), lambda _g: None)
+            for path2, g in sh._paths(base):
+                if g[0] == pm[f[0]]:
+                    continue
+
+                def move(fm, leaf=f[0], target=g[0]):
+                    from flamapy.metamodels.fm_metamodel.models import Relation
+                    obj = fm.get_feature_by_name(leaf)
+                    old_parent = obj.get_parent()
+                    for rel in list(old_parent.get_relations()):
+                        if any(c is obj for c in rel.children):
+                            rel.children.remove(obj)
+                            if not rel.children:
+                                old_parent.relations.remove(rel)
+                            else:
+                                rel.card_max = min(rel.card_max, len(rel.children))
+                                rel.card_min = min(rel.card_min, rel.card_max)
+                    newp = fm.get_feature_by_name(target)
+                    newp.add_relation(Relation(newp, [obj], 0, 1))
+                em = (sh._replace_feature(base, list(path2), lambda h, leafsh=f: (h[0], h[1] + ((0, 1, (leafsh,)),), h[2], h[3], h[4], h[5])), model[1])
+                out.append(('move %s under %s' % (f[0], g[0]), move, em))
     return out
 
 
